@@ -28,6 +28,7 @@ CONSTANTS MaxSearches,   \* number of StartSearch calls the controller may issue
           FixReject,     \* a rejected start releases the init semaphore
           FixLimits,     \* the search goroutine publishes / reads its own limits
           FixTimer,      \* a timer only acts for the search it was started for
+          FixToken,      \* ... and learns which search that is from its spawner, before the goroutine runs
           FixTail        \* a start that meets a search which already has its result waits for it
 
 VARIABLES
@@ -41,7 +42,7 @@ VARIABLES
     spc,        \* search goroutine id -> program counter
     smode,      \* search goroutine id -> its own mode
     tpc,        \* timer id -> program counter
-    towner,     \* timer id -> search it was started for
+    towner,     \* timer id -> <<search it was started for (ghost), token it compares with gen (FixTimer)>>
     tstart,     \* timer id -> clock at start
     clock,
     gen,        \* id of the search currently owning the lifecycle (FixTimer token)
@@ -67,7 +68,7 @@ Init ==
     /\ initSem = 0 /\ runHolder = 0 /\ runWaiter = 0
     /\ stopFlag = FALSE /\ timeLimit = 0 /\ limits = "none"
     /\ spc = [g \in SIds |-> "unborn"] /\ smode = [g \in SIds |-> "none"]
-    /\ tpc = [t \in TIds |-> "unborn"] /\ towner = [t \in TIds |-> 0] /\ tstart = [t \in TIds |-> 0]
+    /\ tpc = [t \in TIds |-> "unborn"] /\ towner = [t \in TIds |-> <<0, 0>>] /\ tstart = [t \in TIds |-> 0]
     /\ clock = 0 /\ gen = 0 /\ results = <<>>
     /\ lastSetter = <<"none">> /\ stopSeen = [g \in SIds |-> <<"none">>]
     /\ accepted = {} /\ ctrlStops = [g \in SIds |-> 0] /\ hits = {} /\ hasResult = 0
@@ -78,7 +79,7 @@ HaveFreeTimer == \E t \in TIds : tpc[t] = "unborn"
 SpawnTimer(owner) ==
     IF HaveFreeTimer
     THEN /\ tpc' = [tpc EXCEPT ![FreeTimer] = "tstart"]
-         /\ towner' = [towner EXCEPT ![FreeTimer] = owner]
+         /\ towner' = [towner EXCEPT ![FreeTimer] = <<owner, gen>>]
     ELSE UNCHANGED <<tpc, towner>>
 
 \* release of the running semaphore: handed over to a queued waiter
@@ -311,18 +312,20 @@ TimerStart(t) ==  \* t.start
     /\ tpc[t] = "tstart"
     /\ tstart' = [tstart EXCEPT ![t] = clock]
     /\ tpc' = [tpc EXCEPT ![t] = "tpoll"]
-    /\ UNCHANGED <<TUnch, towner, stopFlag, lastSetter>>
+    \* without FixToken the goroutine reads the search counter itself, when it finally runs: that may be a later search
+    /\ towner' = IF FixToken THEN towner ELSE [towner EXCEPT ![t] = <<@[1], gen>>]
+    /\ UNCHANGED <<TUnch, stopFlag, lastSetter>>
 
 TimerPoll(t) ==   \* t.poll: loop test - elapsed against the SHARED time limit, then the flag
     /\ tpc[t] = "tpoll"
-    /\ IF clock - tstart[t] < timeLimit /\ ~stopFlag /\ (FixTimer => gen = towner[t])
+    /\ IF clock - tstart[t] < timeLimit /\ ~stopFlag /\ (FixTimer => gen = towner[t][2])
        THEN UNCHANGED tpc                                    \* sleeps another 5 ms
        ELSE tpc' = [tpc EXCEPT ![t] = "tcheck"]
     /\ UNCHANGED <<TUnch, towner, tstart, stopFlag, lastSetter>>
 
 TimerCheck(t) ==  \* t.exit / t.fire
     /\ tpc[t] = "tcheck"
-    /\ IF stopFlag \/ (FixTimer /\ gen # towner[t])
+    /\ IF stopFlag \/ (FixTimer /\ gen # towner[t][2])
        THEN UNCHANGED <<stopFlag, lastSetter>>
        ELSE stopFlag' = TRUE /\ lastSetter' = <<"timer", t>>
     /\ tpc' = [tpc EXCEPT ![t] = "dead"]
@@ -371,7 +374,7 @@ OwnStopOnly ==
         LET c == stopSeen[g] IN
         \/ c = <<"none">>
         \/ c[1] = "ctrl" /\ ctrlStops[g] > 0
-        \/ c[1] = "timer" /\ towner[c[2]] = g
+        \/ c[1] = "timer" /\ towner[c[2]][1] = g
         \/ c[1] = "end" /\ c[2] = g
 
 \* an infinite or ponder search sends no result before a stop, or a ponderhit followed by its own timer
@@ -380,7 +383,7 @@ NoResultBeforeStop ==
         LET g == results[i] IN
         Unlimited(smode[g]) =>
             \/ ctrlStops[g] > 0
-            \/ g \in hits /\ stopSeen[g][1] = "timer" /\ towner[stopSeen[g][2]] = g
+            \/ g \in hits /\ stopSeen[g][1] = "timer" /\ towner[stopSeen[g][2]][1] = g
 
 \* a start request issued while a search is running is rejected without blocking the controller:
 \* covered by NoCtrlStuck; Rejected starts exist in the explored space (vacuity guard)
